@@ -12,7 +12,7 @@ var logic string
 func Family() *rx.Family {
 	return &rx.Family{
 		Name: "s5", Path: "gno.land/r/verif/s5", Logic: logic,
-		Ops: "adegijbcfhkl",
+		Ops: "adeigjbcfhkl",
 		Desc: map[byte]string{'a': "mk[K{1,x}]++", 'b': "mk[K{2,y}]=cnt", 'c': "delete(mk,K{1,x})", 'd': "ma[K..]=,ma[E(1)]=,ma[[2]int]=,ma[true]=", 'e': "delete(ma,1)",
 			'f': "ma[\"1\"]+=;ma[E(1)]+=", 'g': "me[E(3)].N+=10", 'h': "me[E(cnt)]=&V{fresh}", 'i': "t:=mv[p];t.N++;mv[p]=t;mv[q]=t", 'j': "mm[in][E(1)]+=5", 'k': "delete(mm,in);mm[other]=map", 'l': "delete(me,E(3))"},
 		Reset: reset, Op: op, Dump: dump,
